@@ -230,9 +230,12 @@ class Interp {
             int fw = -1;
             size_t f = blk.find("Failed WITH(wev(eid, ");
             if (f != std::string::npos) fw = atoi(blk.c_str() + f + 21);
+            size_t nfw = 0;
+            for (size_t q = blk.find("Failed WITH("); q != std::string::npos; q = blk.find("Failed WITH(", q + 1)) ++nfw;
             const MExp& le = m.E.at(x.listed[i].eid);
             if (le.s.lit >= 0) continue;  // literal sites: WITH text differs; parameters still checked below
             need(rej == x.listed[i].rej_params, "expectation " + std::to_string(x.listed[i].eid) + " rejecting parameters shown " + show_ids(rej) + " want " + show_ids(x.listed[i].rej_params));
+            need(nfw == (x.listed[i].rej_params.empty() ? 1u : 0u), "expectation " + std::to_string(x.listed[i].eid) + " shows " + std::to_string(nfw) + " failing WITH clauses (only the first failing one is to be shown, and none when a parameter rejected)");
             if (x.listed[i].rej_params.empty()) need(fw == x.listed[i].failed_with, "expectation " + std::to_string(x.listed[i].eid) + " failed WITH shown " + std::to_string(fw) + " want " + std::to_string(x.listed[i].failed_with));
             else need(fw == -1, "WITH shown although a parameter rejected");
             for (int rp : x.listed[i].rej_params) {
@@ -429,7 +432,7 @@ class Interp {
       case O_WATCH: { int sq[2] = {o.at(3), o.at(4)}; real::watch(o.at(0), o.at(1), eid0, o.at(2), sq); break; }
       case O_UNWATCH: real::unwatch(o.at(0), o.at(1)); break;
       case O_DESTROY_DW: real::destroy_dw(o.at(0)); break;
-      case O_COPY_DW: real::copy_dw(o.at(0), o.at(1)); break;
+      case O_COPY_DW: real::copy_dw(o.at(0), o.at(1), o.at(2) != 0); break;
       case O_MOVE_DW: real::move_dw(o.at(0), o.at(1)); break;
       case O_ASSIGN_DW: real::assign_dw(o.at(0), o.at(1), o.at(2) != 0); break;
       case O_RECREATE_DW: real::recreate_dw(o.at(0)); break;
@@ -679,7 +682,7 @@ class Interp {
       case O_WATCH: { int sq[2] = {o.at(3), o.at(4)}; real::watch(o.at(0), o.at(1), eid0, o.at(2), sq); break; }
       case O_UNWATCH: real::unwatch(o.at(0), o.at(1)); break;
       case O_DESTROY_DW: real::destroy_dw(o.at(0)); break;
-      case O_COPY_DW: real::copy_dw(o.at(0), o.at(1)); break;
+      case O_COPY_DW: real::copy_dw(o.at(0), o.at(1), o.at(2) != 0); break;
       case O_MOVE_DW: real::move_dw(o.at(0), o.at(1)); break;
       case O_ASSIGN_DW: real::assign_dw(o.at(0), o.at(1), o.at(2) != 0); break;
       case O_RECREATE_DW: real::recreate_dw(o.at(0)); break;
